@@ -7,16 +7,17 @@ export CARGO_INCREMENTAL=0
 if [ ! -d $WT ]; then git -C /repo worktree add --detach $WT HEAD -q && cp -a /tmp/seed/base/target $WT/target; fi
 cd $WT || exit 2
 LOG=$OUT/verify.log; : > $LOG
-DEMO_DST=$(grep -oE 'tests/[A-Za-z0-9_]+\.rs' $OUT/demo_cmd.txt | head -1)
+DEMO_DST=$(grep -oE '([A-Za-z0-9_]+/)*tests/[A-Za-z0-9_]+\.rs' $OUT/demo_cmd.txt | grep -v '^tmp/' | head -1)
+PKG=$(grep -oE -- '-p [a-z_-]+' $OUT/demo_cmd.txt | head -1)   # a demo placed in a member crate's tests/ directory
 [ -z "$DEMO_DST" ] && DEMO_DST=tests/seed_demo.rs
 DEMO_NAME=$(basename $DEMO_DST .rs)
 git checkout -q -- . ; git clean -fdq -e target
 cp $OUT/demo.rs $DEMO_DST
 echo "== demo WITHOUT patch (expect pass)" >> $LOG
-cargo test --offline -j ${VJ:-6} --test $DEMO_NAME >> $LOG 2>&1; A=$?
+timeout 900 cargo test $PKG --offline -j ${VJ:-6} --test $DEMO_NAME >> $LOG 2>&1; A=$?
 git apply $OUT/patch.diff || { echo "PATCH DOES NOT APPLY" >> $LOG; exit 3; }
 echo "== demo WITH patch (expect fail)" >> $LOG
-cargo test --offline -j ${VJ:-6} --test $DEMO_NAME >> $LOG 2>&1; B=$?
+timeout 900 cargo test $PKG --offline -j ${VJ:-6} --test $DEMO_NAME >> $LOG 2>&1; B=$?
 rm -f $DEMO_DST
 echo "== suite WITH patch (expect pass)" >> $LOG
 cargo nextest run --workspace --no-fail-fast --test-threads ${VJ:-6} --offline >> $LOG 2>&1; C=$?
